@@ -8,6 +8,8 @@
 //	           gated: each behaviour's schedule (TLC) is replayed step by step on real goroutines
 //	c12 stress -catalog catalog.json -out trace.ndjson -runs N -procs K
 //	           free running: K goroutines per run, no gates, seeded choice of the requests
+//	c12 unit   -in <dir of behaviours of spec/LockTable.tla> -out trace.ndjson
+//	           whole TryLock / Unlock calls on one real utxo.SpinLock
 package main
 
 import (
@@ -44,9 +46,9 @@ func stats(m map[string]interface{}) {
 }
 
 func main() {
-	subs := map[string]func([]string) error{"info": infoMain, "replay": replayMain, "stress": stressMain}
+	subs := map[string]func([]string) error{"info": infoMain, "replay": replayMain, "stress": stressMain, "unit": unitMain}
 	if len(os.Args) < 2 || subs[os.Args[1]] == nil {
-		fmt.Fprintln(os.Stderr, "usage: c12 info|replay|stress [flags]")
+		fmt.Fprintln(os.Stderr, "usage: c12 info|replay|stress|unit [flags]")
 		os.Exit(64)
 	}
 	work := os.Getenv("VERIF_WORK")
@@ -157,7 +159,7 @@ func replayMain(args []string) error {
 	out := fs.String("out", "trace.ndjson", "ndjson trace to write")
 	from := fs.Int("from", 0, "first behaviour (index in file order)")
 	to := fs.Int("to", -1, "behaviour after the last one (-1: all)")
-	maxHangs := fs.Int("maxhangs", 2, "stop after this many runs in which a request never returned (each costs the time-outs)")
+	maxHangs := fs.Int("maxhangs", 1, "stop after this many runs in which a request never returned (each costs the time-outs)")
 	fs.Parse(args)
 	w, err := world0(*catf)
 	if err != nil {
@@ -189,7 +191,7 @@ func replayMain(args []string) error {
 		if err != nil {
 			return fmt.Errorf("behaviour %d: %v", k, err)
 		}
-		sch := newScheduler(s, sc)
+		sch := newScheduler(s, sc, k)
 		if err := sch.run(sched); err != nil {
 			return fmt.Errorf("behaviour %d: %v", k, err)
 		}
@@ -202,12 +204,13 @@ func replayMain(args []string) error {
 				hung = true
 			}
 		}
-		ev["obs"] = s.project()
 		if hung {
 			hangs++
+			ev["obs"] = s.projectAfterHang()
 			ev["epi"] = []string{}
 			ev["obs2"] = ev["obs"]
 		} else {
+			ev["obs"] = s.project()
 			ev["epi"] = s.epilogue(sc)
 			ev["obs2"] = s.project()
 		}
@@ -237,6 +240,7 @@ func stressMain(args []string) error {
 	nruns := fs.Int("runs", 100, "number of runs")
 	procs := fs.Int("procs", 5, "goroutines per run")
 	shard := fs.Int("shard", 0, "shard number (enters the seed)")
+	maxWalkProcs := fs.Int("maxwalkprocs", 4, "goroutines per run when one of the requests is a walk")
 	fs.Parse(args)
 	w, err := world0(*catf)
 	if err != nil {
@@ -256,14 +260,22 @@ func stressMain(args []string) error {
 			pool = w.cat.TokPool
 		}
 		sc := []string{}
-		plays := 0
-		for len(sc) < *procs {
+		excl := map[string]int{} // at most one play and one walk (they may meet: the walk's recovery beside the play)
+		np := *procs
+		for len(sc) < np {
 			n := pool[rng.Intn(len(pool))]
-			if w.cat.Req[n].Ty == "play" {
-				if plays > 0 {
+			if ty := w.cat.Req[n].Ty; exclusive(ty) {
+				if excl[ty] > 0 {
 					continue
 				}
-				plays++
+				excl[ty]++
+				if ty == "walk" && np > *maxWalkProcs {
+					// the one-at-a-time reading of a walk places every re-submission on its own: keep the search small
+					np = *maxWalkProcs
+					if len(sc) >= np {
+						sc = sc[:np-1]
+					}
+				}
 			}
 			sc = append(sc, n)
 		}
@@ -305,19 +317,20 @@ func stressMain(args []string) error {
 			}
 		}
 		ev := fx.Ev{"op": "run", "tr": k, "i": 0, "mode": "free", "sc": sc, "steps": [][]interface{}{}, "res": out, "bind": -1}
-		ev["obs"] = s.project()
 		if hung {
 			hangs++
+			ev["obs"] = s.projectAfterHang()
 			ev["epi"] = []string{}
 			ev["obs2"] = ev["obs"]
 		} else {
+			ev["obs"] = s.project()
 			ev["epi"] = s.epilogue(sc)
 			ev["obs2"] = s.project()
 			s.node.Drop()
 		}
 		tw.Emit(ev)
-		if hangs >= 2 {
-			break
+		if hangs >= 1 {
+			break // the goroutines that hang stay behind: nothing recorded after them would be clean
 		}
 	}
 	stats(map[string]interface{}{"runs": *nruns, "hangs": hangs, "sign_tries": w.tries, "lockkeys": w.lockKeysDiffer})
